@@ -218,6 +218,7 @@ func RuleJPair(c *core.Ctx) {
 		// not two literals of one expression: decide on the SSA form (helper that
 		// builds one posting from its parameters, called twice)
 		if decided, probs := jpairSSA(p, build); decided {
+			probs = append(probs, pairOnEveryReturn(build)...)
 			if len(probs) == 0 {
 				c.Ob(rule, key, build.Pos(), core.FuncName(build), core.Discharged, "the two returned postings carry {x.Neg(), x} for Quantity and Value on the same side, swapped Account/Other and one Commodity (decided on the values; helper parameters followed to the call's arguments)")
 			} else {
@@ -334,13 +335,41 @@ func RuleJPair(c *core.Ctx) {
 			problems = append(problems, "the two halves are built from different builder values (the receiver is modified between the two calls)")
 		}
 	}
+	problems = append(problems, pairOnEveryReturn(build)...)
 	if len(problems) == 0 {
 		c.Ob(rule, key, lits[0].Pos(), core.FuncName(build), core.Discharged,
-			"the pair literal carries {x.Neg(), x} for Quantity and Value, swapped Account/Other and one Commodity, all inside one expression")
+			"the pair literal carries {x.Neg(), x} for Quantity and Value, swapped Account/Other and one Commodity, all inside one expression; every return of the builder returns it")
 	} else {
 		c.Ob(rule, key, lits[0].Pos(), core.FuncName(build), core.Violated, "the pair builder does not produce exact negatives: "+strings.Join(problems, "; "))
 	}
 	c.Floor(rule, 1)
+}
+
+// pairOnEveryReturn: every return of the pair builder hands back a slice of a
+// two-element array built in the function — no path returns nil or a shorter
+// list (a booking that produces no postings is invisible to the checker).
+func pairOnEveryReturn(build *ssa.Function) []string {
+	var problems []string
+	core.EachInstr(build, func(ins ssa.Instruction) {
+		ret, ok := ins.(*ssa.Return)
+		if !ok || len(ret.Results) != 1 {
+			return
+		}
+		okPair := false
+		if sl, ok := core.Strip(ret.Results[0]).(*ssa.Slice); ok && sl.Low == nil && sl.High == nil {
+			if al, ok := sl.X.(*ssa.Alloc); ok {
+				if pt, ok := al.Type().Underlying().(*types.Pointer); ok {
+					if at, ok := pt.Elem().Underlying().(*types.Array); ok && at.Len() == 2 {
+						okPair = true
+					}
+				}
+			}
+		}
+		if !okPair {
+			problems = append(problems, "a path of the pair builder returns something other than the two postings (no postings at all for some bookings)")
+		}
+	})
+	return problems
 }
 
 func enclosingSliceLit(body ast.Node, inner *ast.CompositeLit) *ast.CompositeLit {
